@@ -165,6 +165,12 @@ impl OnetimeAuth {
         }
     }
 
+    #[cfg(dryoc_verif)]
+    /// Verification hook: number of bytes currently buffered.
+    pub fn verif_buf_len(&self) -> usize {
+        self.state.verif_buf_len()
+    }
+
     /// Updates the one-time authenticator at `self` with `input`.
     pub fn update<Input: Bytes>(&mut self, input: &Input) {
         crypto_onetimeauth_update(&mut self.state, input.as_slice())
